@@ -80,8 +80,8 @@ func execC10(t *testing.T, p Plan, src kernel.Source) Result {
 		by := w.Connect(p.Conns[1].Port)
 		w.Settle()
 		conns := []*kernel.ClientConn{victim, by}
-		ref := model.NewStore(w.Now) // exact model for the bystander's keys and the set-up
-		poss := map[string]kset{}    // victim keys
+		ref := model.NewStore(w.Now)     // exact model for the bystander's keys and the set-up
+		poss := map[string]kset{}        // victim keys
 		lastAcked := map[string]string{} // per key: kind of the last acknowledged write of the victim program
 		fclass := "none"
 		if len(p.Faults) > 0 {
